@@ -285,7 +285,9 @@ func (db *Database) SearchUniversal(query string, options SearchOptions) []Searc
 	// If no terms after processing, try fuzzy search as fallback
 	if len(terms) == 0 {
 		if options.UseFuzzy {
-			return db.performFuzzySearch(query, options)
+			// performFuzzySearch over-fetches (2x) for callers that merge lists; here
+			// its list is the answer, so the limit applies
+			return db.limitResults(db.performFuzzySearch(query, options), options.Limit)
 		}
 		return nil
 	}
@@ -303,7 +305,7 @@ func (db *Database) SearchUniversal(query string, options SearchOptions) []Searc
 	// If no BM25F results, try fuzzy search as fallback for typos
 	if len(scores) == 0 {
 		if options.UseFuzzy {
-			return db.performFuzzySearch(query, options)
+			return db.limitResults(db.performFuzzySearch(query, options), options.Limit)
 		}
 		return nil
 	}
